@@ -96,6 +96,7 @@ def renderSentence (s : Sentence) : String :=
   " ch=" ++ (match s.channel with | none => "none" | some b => toString b.toNat) ++
   " data=" ++ hexOfBytes s.data ++ " fill=" ++ toString s.fill_bit_count ++
   " mt=" ++ toString s.message_type ++
+  " hm=" ++ toString s.hasMore ++ " fr=" ++ toString s.isFragment ++
   " msg=" ++ (match s.message with | none => "none" | some m => renderMsg m)
 
 def renderState (st : PState) : String :=
@@ -229,6 +230,16 @@ def handle (s : St) (line : String) : St × String :=
         | .err _ => "err"
         | .panic _ => "panic")
     | none => (s, "bad-op")
+  | ["P", t, hex] =>
+    match t.toNat?, bytesOfHex hex with
+    | some t, some bs =>
+      if (1 ≤ t ∧ t ≤ 21) ∨ t = 24 ∨ t = 27 then
+        (s, match parseAs s.cfg t bs with
+          | .ok m => "ok " ++ renderMsg m
+          | .err _ => "err"
+          | .panic _ => "panic")
+      else (s, "bad-op")
+    | _, _ => (s, "bad-op")
   | ["F", lo, hi] =>
     match lo.toNat?, hi.toNat? with
     | some l, some h => (s, f32Cross l h)
